@@ -68,6 +68,13 @@ def srat(f):
     return sym.Rational(f.numerator, f.denominator)
 
 
+def gq_sym(x):
+    """exact Gaussian rational as a canonical sympy number (re + I*im with Rational parts)"""
+    parts = gq(x).split(',')
+    re = srat(Fraction(parts[0]))
+    return re + sym.I * srat(Fraction(parts[1])) if len(parts) > 1 else re
+
+
 def sval(e, subs):
     """lcapy / sympy expression -> sympy number after exact substitution"""
     x = e.sympy if hasattr(e, 'sympy') else sym.sympify(e)
@@ -83,13 +90,26 @@ def sval(e, subs):
 
 # --------------------------------------------------------------------------- netlist generation
 
-class Net:
-    """a generated netlist: list of (name, type, n1, n2, value, ic or None, source kind or None)"""
+# exact phases of ac sources: (netlist text, cos, sin); the model is handed the complex amplitude A(cos + j sin)
+PHASES = [('0', Fraction(1), Fraction(0)), ('{pi/2}', Fraction(0), Fraction(1)), ('{-pi/2}', Fraction(0), Fraction(-1)),
+          ('{pi}', Fraction(-1), Fraction(0)), ('{atan(3/4)}', Fraction(4, 5), Fraction(3, 5)),
+          ('{-atan(4/3)}', Fraction(3, 5), Fraction(-4, 5)), ('{pi-atan(5/12)}', Fraction(-12, 13), Fraction(5, 13))]
 
-    def __init__(self, cpts, analysis, point):
+
+def ac_phase(sk):
+    """source kind 'ac' or 'ac:<k>' -> index into PHASES"""
+    return int(sk.split(':')[1]) if ':' in sk else 0
+
+
+class Net:
+    """a generated netlist: list of (name, type, n1, n2, value, ic or None, source kind or None);
+    the source kind of an ac source is 'ac' or 'ac:<k>' (phase PHASES[k])"""
+
+    def __init__(self, cpts, analysis, point, extra=()):
         self.cpts = cpts
         self.analysis = analysis      # 'dc' | 'lap' | 'ac' | 'time'
         self.point = point            # Fraction: s, or omega for ac, or t for time
+        self.extra = list(extra)      # raw lines of other components (E, G, F, H, TF, K …), the same for Lcapy and the model
 
     def lines(self, for_model=False):
         out = []
@@ -97,15 +117,32 @@ class Net:
             if ty in 'VI':
                 if for_model and self.analysis == 'time':
                     out.append('%s %d %d dc %s' % (name, n1, n2, fstr(val)))
-                elif sk == 'ac':
-                    out.append('%s %d %d ac %s 0 %s' % (name, n1, n2, fstr(val), fstr(self.point)))
+                elif sk.startswith('ac'):
+                    ph, co, si = PHASES[ac_phase(sk)]
+                    if for_model:
+                        amp = fstr(val * co) + ('' if si == 0 else ',' + fstr(val * si))
+                        out.append('%s %d %d ac %s 0 %s' % (name, n1, n2, amp, fstr(self.point)))
+                    else:
+                        out.append('%s %d %d ac %s %s %s' % (name, n1, n2, fstr(val), ph, fstr(self.point)))
                 else:
                     out.append('%s %d %d %s %s' % (name, n1, n2, sk, fstr(val)))
             elif ic is not None:
                 out.append('%s %d %d %s %s' % (name, n1, n2, fstr(val), fstr(ic)))
             else:
                 out.append('%s %d %d %s' % (name, n1, n2, fstr(val)))
-        return out
+        return out + self.extra
+
+    def ss_model_lines(self):
+        """netlist for the StateSpaceMaker model: topology and component values only (source values are symbols there)"""
+        out = []
+        for (name, ty, n1, n2, val, ic, sk) in self.cpts:
+            if ty in 'VI':
+                out.append('%s %d %d dc %s' % (name, n1, n2, fstr(val)))
+            elif ic is not None:
+                out.append('%s %d %d %s %s' % (name, n1, n2, fstr(val), fstr(ic)))
+            else:
+                out.append('%s %d %d %s' % (name, n1, n2, fstr(val)))
+        return out + self.extra
 
     def text(self):
         return '\n'.join(self.lines())
@@ -124,7 +161,7 @@ class Net:
         return any(c[5] is not None for c in self.cpts)
 
     def key(self):
-        return (self.analysis, self.point, tuple(self.cpts))
+        return (self.analysis, self.point, tuple(self.cpts), tuple(self.extra))
 
 
 def gen_net(rng, analysis, allow_I=True, allow_ic=True, max_nodes=4, reactive=True, parallel_ok=True, n_src=None):
@@ -161,7 +198,10 @@ def gen_net(rng, analysis, allow_I=True, allow_ic=True, max_nodes=4, reactive=Tr
         ic = None
         if ty in 'CL' and analysis == 'lap' and allow_ic and rng.random() < 0.4:
             ic = Fraction(rng.randint(-5, 5), rng.choice([1, 2]))
-        cpts.append((name, ty, a, b, val, ic, sk if ty in 'VI' else None))
+        skc = sk
+        if ty in 'VI' and sk == 'ac' and rng.random() < 0.6:
+            skc = 'ac:%d' % rng.randrange(1, len(PHASES))
+        cpts.append((name, ty, a, b, val, ic, skc if ty in 'VI' else None))
     if analysis == 'lap':
         point = Fraction(rng.randint(1, 12), rng.randint(1, 7))
     elif analysis == 'ac':
@@ -178,9 +218,21 @@ def gen_net(rng, analysis, allow_I=True, allow_ic=True, max_nodes=4, reactive=Tr
 class Real:
     """the real circuit in the analysis domain, with exact reported values at the sample point"""
 
-    def __init__(self, net):
+    def __init__(self, net, edit=None):
+        """`edit`: None -- the circuit is built in one go;  'add' / 'remove' -- the analysis-domain circuit object is
+        first built without its last component / with an extra resistor, every formulation is requested from it, and
+        then the object is edited in place (`add` / `remove`) into the netlist `net`: what the object prints afterwards
+        must belong to the circuit it now is"""
         self.net = net
-        self.c = lcapy.Circuit(net.text())
+        self.edit = edit
+        lines = net.lines()
+        first = lines
+        if edit == 'add':
+            first = lines[:-1]
+        elif edit == 'remove':
+            nodes = sorted({c[2] for c in net.cpts} | {c[3] for c in net.cpts})
+            first = lines + ['Rxedit %d %d 3' % (nodes[-1], nodes[0])]
+        self.c = lcapy.Circuit('\n'.join(first))
         a = net.analysis
         if a == 'dc':
             self.cc = self.c.dc()
@@ -190,6 +242,17 @@ class Real:
             self.cc = self.c.ac()
         else:
             self.cc = self.c
+        if edit:
+            for touch in (lambda: self.cc.nodal_analysis(), lambda: self.cc.mesh_analysis(),
+                          lambda: self.cc.matrix_equations(), lambda: self.cc['1'].V, lambda: self.cc.circuit_graph()):
+                try:
+                    touch()
+                except Exception:   # noqa  (the intermediate circuit may be unsolvable; only the final one is judged)
+                    pass
+            if edit == 'add':
+                self.cc.add(lines[-1])
+            else:
+                self.cc.remove('Rxedit')
         self.subs = {}
         if a == 'lap':
             self.subs = {'s': srat(net.point)}
@@ -230,17 +293,58 @@ class Real:
         return self.value(self.cc[name].I)
 
 
+def add_extra(rng, net, kinds):
+    """append one controlled source / transformer / coupling to a generated netlist (raw lines in net.extra):
+    E and TF drive a NEW node that a new resistor ties to the circuit, G and F inject between existing nodes,
+    H drives a new node, K couples two inductors"""
+    nodes = sorted({c[2] for c in net.cpts} | {c[3] for c in net.cpts})
+    new = nodes[-1] + 1
+    kind = rng.choice(kinds)
+    g = fstr(Fraction(rng.randint(1, 6), rng.choice([1, 2, 3])))
+    c, d = rng.sample(nodes, 2)
+    x = rng.choice(nodes)
+    nr = 1 + sum(1 for q in net.cpts if q[1] == 'R')
+    vs = [q[0] for q in net.cpts if q[1] == 'V']
+    ls = [q[0] for q in net.cpts if q[1] == 'L']
+    tie = ('R%d' % nr, 'R', new, x, Fraction(rng.randint(1, 9)), None, None)
+    if kind == 'E':
+        net.cpts.append(tie)
+        net.extra.append('E1 %d 0 %d %d %s' % (new, c, d, g))
+    elif kind == 'TF':
+        net.cpts.append(tie)
+        net.extra.append('TF1 %d 0 %d %d %s' % (new, c, d, g))
+    elif kind == 'G':
+        net.extra.append('G1 %d %d %d %d %s' % (x, nodes[0] if x != nodes[0] else nodes[1], c, d, g))
+    elif kind == 'F' and vs:
+        net.extra.append('F1 %d %d %s %s' % (c, d, vs[0], g))
+    elif kind == 'H' and vs:
+        net.cpts.append(tie)
+        net.extra.append('H1 %d 0 %s %s' % (new, vs[0], g))
+    elif kind == 'K' and len(ls) >= 2:
+        net.extra.append('K1 %s %s %s' % (ls[0], ls[1], rng.choice(['1/2', '1/3', '3/5'])))
+    else:
+        return None
+    return kind
+
+
 def net_from_lines(lines, analysis, point):
     cpts = []
+    extra = []
     for l in lines:
         tk = l.split()
+        if tk[0][0] not in 'RLCVI':
+            extra.append(l)
+            continue
         name, a, b = tk[0], int(tk[1]), int(tk[2])
         ty = name[0]
         if ty in 'VI':
-            cpts.append((name, ty, a, b, Fraction(tk[4]), None, tk[3]))
+            sk = tk[3]
+            if sk == 'ac' and len(tk) > 5 and tk[5] != '0':
+                sk = 'ac:%d' % [p[0] for p in PHASES].index(tk[5])
+            cpts.append((name, ty, a, b, Fraction(tk[4]), None, sk))
         else:
             cpts.append((name, ty, a, b, Fraction(tk[3]), Fraction(tk[4]) if len(tk) > 4 else None, None))
-    return Net(cpts, analysis, Fraction(point))
+    return Net(cpts, analysis, Fraction(point), extra)
 
 
 def linear_form(expr, unknowns, subs=None):
@@ -301,8 +405,9 @@ def parse_form(s):
 # --------------------------------------------------------------------------- the check
 
 def run(chk, replay=None):
-    broken = chk.lean(['Lcapy/Props/C15.lean'],
+    broken = chk.lean(['Lcapy/Props/C15.lean', 'Lcapy/Props/C15SS.lean'],
                       helper_files=['Lcapy/Proofs/Formulations.lean', 'Lcapy/Proofs/Realisations.lean',
+                                    'Lcapy/Proofs/StateSpaceMaker.lean', 'Lcapy/Model/StateSpaceMaker.lean',
                                     'Lcapy/Model/Formulations.lean', 'Lcapy/Model/Realisations.lean',
                                     'Lcapy/Spec/StateSpace.lean', 'Lcapy/Spec/Laws.lean', 'Lcapy/Driver/C15.lean'],
                       leanchecker=(chk.tier == 'thorough'))
@@ -349,10 +454,12 @@ def run(chk, replay=None):
                 reasons.add('ic-second-node')
         return sorted(reasons) or None
 
-    def check_nodal(net, R):
-        chk.count('formulation', 'nodal')
+    def check_nodal(net, R, route='sub'):
+        """route 'sub': the formulation of the analysis-domain sub-circuit (cct.ac(), cct.laplace(), …);
+        'direct': asked of the circuit object itself (an ac circuit with one source group resolves to phasors)"""
+        chk.count('formulation', 'nodal' + ('' if route == 'sub' else ':direct'))
         try:
-            na = R.cc.nodal_analysis()
+            na = (R.cc if route == 'sub' else R.c).nodal_analysis()
             eqs = dict(na._equations)
         except Exception as e:   # noqa
             chk.count('lcapy-error', 'nodal:%s:%s' % (net.analysis, type(e).__name__))
@@ -382,13 +489,13 @@ def run(chk, replay=None):
                 c0 = gq(const)
             except NotExact as ex:
                 chk.count('degenerate', 'nodal-equation:%s' % ex)
-                chk.case(('nodal', net.key(), node), False)
+                chk.case(('nodal', route, net.key(), node), False)
                 continue
             except Exception as ex:   # noqa
                 chk.count('lcapy-error', 'nodal-equation:%s' % type(ex).__name__)
-                chk.case(('nodal', net.key(), node), False)
+                chk.case(('nodal', route, net.key(), node), False)
                 continue
-            chk.case(('nodal', net.key(), node), True)
+            chk.case(('nodal', route, net.key(), node), True)
             # correspondence
             got = ({k: v for k, v in cs.items() if v != '0'}, c0)
             if model is not None:
@@ -407,7 +514,7 @@ def run(chk, replay=None):
                 if not why and net.analysis == 'ac' and any(c[1] in 'CL' and int(node) in (c[2], c[3]) for c in net.cpts):
                     why = ['ac-impedance-missing-j']
                 key = {'formulation': 'nodal', 'defect': why[0] if why else 'unexplained'}
-                cex(key, {'input': {'netlist': net.lines(), 'analysis': net.analysis, 'point': fstr(net.point), 'node': node},
+                cex(key, {'input': {'netlist': net.lines(), 'analysis': net.analysis, 'point': fstr(net.point), 'node': node, 'history': R.edit, 'route': route},
                           'lcapy_equation': '%s = %s' % (lhs, rhs),
                           'reported_node_voltages': dict(zip(nodes, xs)), 'residual': r,
                           'spec': 'LinForm.eval of the printed equation at the reported solution must be 0 (nodal_eqs_hold)',
@@ -417,10 +524,10 @@ def run(chk, replay=None):
                 chk.count('oracle', 'nodal-holds')
 
     # ------------------------------------------------------------------ mesh
-    def check_mesh(net, R):
-        chk.count('formulation', 'mesh')
+    def check_mesh(net, R, route='sub'):
+        chk.count('formulation', 'mesh' + ('' if route == 'sub' else ':direct'))
         try:
-            la = R.cc.mesh_analysis()
+            la = (R.cc if route == 'sub' else R.c).mesh_analysis()
             loops = [list(l) for l in la.loops()]
             eqs = list(la._equations.items())
             unk = [u.sympy for u in la._unknowns]
@@ -436,7 +543,8 @@ def run(chk, replay=None):
         if cyc.split() != ['true'] * len(loops):
             chk.count('loops', 'not-simple-cycle')
             cex({'formulation': 'mesh', 'defect': 'loop-not-simple-cycle'},
-                {'input': {'netlist': net.lines(), 'loops': loops}, 'isSimpleCycle': cyc},
+                {'input': {'netlist': net.lines(), 'analysis': net.analysis, 'point': fstr(net.point), 'loops': loops,
+                           'history': R.edit, 'route': route}, 'isSimpleCycle': cyc},
                 'a loop returned by CircuitGraph.loops() is not a simple cycle of the circuit graph')
             return
         chk.count('loops', 'simple-cycles', len(loops))
@@ -460,7 +568,7 @@ def run(chk, replay=None):
                     trav[elt.name][n] = trav[elt.name].get(n, 0) + (1 if lp[j] == n1 else -1)
             for name, d in sorted(trav.items()):
                 rows.append([d.get(n, 0) for n in range(len(loops))])
-                rhs.append(R.I(name))
+                rhs.append(gq_sym(R.I(name)))     # canonical: Gauss-Jordan must be able to test for zero
                 names.append(name)
             M = sym.Matrix(rows)
             b = sym.Matrix(rhs)
@@ -469,7 +577,8 @@ def run(chk, replay=None):
             im = [gq(v) for v in sol]
         except ValueError:
             cex({'formulation': 'mesh', 'defect': 'parallel-components' if has_dummy else 'mesh-currents-cannot-represent-solution'},
-                {'input': {'netlist': net.lines(), 'loops': loops}, 'spec': 'no mesh currents reproduce the reported branch currents'},
+                {'input': {'netlist': net.lines(), 'analysis': net.analysis, 'point': fstr(net.point), 'loops': loops,
+                           'history': R.edit, 'route': route}, 'spec': 'no mesh currents reproduce the reported branch currents'},
                 'the loops cannot carry the reported branch currents')
             return
         except NotExact as e:
@@ -486,13 +595,13 @@ def run(chk, replay=None):
                 c0 = gq(const)
             except NotExact as ex:
                 chk.count('degenerate', 'mesh-equation:%s' % ex)
-                chk.case(('mesh', net.key(), m), False)
+                chk.case(('mesh', route, net.key(), m), False)
                 continue
             except Exception as ex:   # noqa
                 chk.count('lcapy-error', 'mesh-equation:%s' % type(ex).__name__)
-                chk.case(('mesh', net.key(), m), False)
+                chk.case(('mesh', route, net.key(), m), False)
                 continue
-            chk.case(('mesh', net.key(), m), True)
+            chk.case(('mesh', route, net.key(), m), True)
             got = ({k: v for k, v in cs.items() if v != '0'}, c0)
             matched = None
             for variant in MESH_VARIANTS:
@@ -532,7 +641,7 @@ def run(chk, replay=None):
                 defect = 'parallel-components' if is_c else 'initial-condition' if ic_on_loop else \
                     'ac-impedance-missing-j' if ac_react else 'unexplained'
                 cex({'formulation': 'mesh', 'defect': defect},
-                    {'input': {'netlist': net.lines(), 'analysis': net.analysis, 'point': fstr(net.point), 'loops': loops, 'mesh': m},
+                    {'input': {'netlist': net.lines(), 'analysis': net.analysis, 'point': fstr(net.point), 'loops': loops, 'mesh': m, 'history': R.edit, 'route': route},
                      'lcapy_equation': '%s = %s' % (lhs, rhs_), 'mesh_currents_from_reported_branch_currents': im,
                      'branch_currents': dict(zip(names, [gq(v) for v in rhs])), 'residual': r,
                      'spec': 'MeshForm.eval of the printed equation at mesh currents carrying the reported branch currents must be 0 (mesh_eqs_hold)',
@@ -578,7 +687,7 @@ def run(chk, replay=None):
             r = eval_form(rowsA[i], '0' if colZ[i] == '0' else gq(-sval(Z[i, 0], subs)), xs)
             if r != '0':
                 cex({'formulation': 'mna', 'defect': 'printed-ignores-initial-conditions' if net.has_ic() else 'row-not-satisfied'},
-                    {'input': {'netlist': net.lines(), 'analysis': net.analysis, 'point': fstr(net.point), 'row': lab},
+                    {'input': {'netlist': net.lines(), 'analysis': net.analysis, 'point': fstr(net.point), 'row': lab, 'history': R.edit},
                      'A_row': rowsA[i], 'Z': colZ[i], 'x': dict(zip(labels, xs)), 'residual': r,
                      'spec': 'row of the printed A y = b at the reported solution must hold'},
                     'MNA matrix equation row %s is not satisfied by the reported solution' % lab)
@@ -593,7 +702,7 @@ def run(chk, replay=None):
                 if rowsA[i][j] != '0':
                     real['%s,%s' % (li, lj)] = rowsA[i][j]
         realz = {li: colZ[i] for i, li in enumerate(labels) if colZ[i] != '0'}
-        r = drv.ask1('mna.matrix %s || %s' % (anl, ' || '.join(net.lines())))
+        r = drv.ask1('mna.matrix %s || %s' % (anl, ' || '.join(net.lines(for_model=True))))
         if not r.startswith('ok A'):
             chk.count('model', 'mna:' + r[:30])
         else:
@@ -608,7 +717,7 @@ def run(chk, replay=None):
         # the Laws spec itself on the reported solution (hypothesis of nodal_eqs_hold / mesh_eqs_hold)
         assign = 'V ' + ' '.join('%s=%s' % (n, x) for n, x in zip(nodes, xs[:len(nodes)])) + \
                  ' J ' + ' '.join('%s=%s' % (b, x) for b, x in zip(brs, xs[len(nodes):]))
-        r = drv.ask1('mna.laws %s || %s || %s' % (anl, ' || '.join(net.lines()), assign))
+        r = drv.ask1('mna.laws %s || %s || %s' % (anl, ' || '.join(net.lines(for_model=True)), assign))
         chk.count('laws-on-reported-solution', r.split()[0] if r else 'empty')
 
     # ------------------------------------------------------------------ circuits
@@ -631,30 +740,49 @@ def run(chk, replay=None):
         Net([('V1', 'V', 1, 0, Fraction(6), None, 'step'), ('R1', 'R', 1, 2, Fraction(3), None, None),
              ('R2', 'R', 1, 3, Fraction(5), None, None), ('R3', 'R', 2, 0, Fraction(7), None, None),
              ('R4', 'R', 3, 0, Fraction(2), None, None), ('R5', 'R', 2, 3, Fraction(4), None, None)], 'lap', Fraction(2)),
+        # ac sources with a phase: the phasor of A cos(wt + phi) is A exp(j phi)
+        Net([('I1', 'I', 1, 0, Fraction(2), None, 'ac:4'), ('R1', 'R', 1, 0, Fraction(5), None, None),
+             ('R2', 'R', 1, 2, Fraction(2), None, None), ('C1', 'C', 2, 0, Fraction(4), None, None)], 'ac', Fraction(3)),
+        Net([('V1', 'V', 1, 0, Fraction(5), None, 'ac:1'), ('R1', 'R', 1, 2, Fraction(2), None, None),
+             ('L1', 'L', 2, 3, Fraction(3), None, None), ('I1', 'I', 0, 3, Fraction(1), None, 'ac:5'),
+             ('R2', 'R', 3, 0, Fraction(7), None, None)], 'ac', Fraction(2)),
     ]
     nets = list(fixed)
     for a in plan:
         nets.append(gen_net(rng, a, max_nodes=4 if quick else 5, reactive=(a != 'time')))
     rep = None
+    replay_edit = None
     if replay:
         import json
         rep = json.load(open(replay if os.path.exists(replay) else os.path.join(common.VERIF, replay)))
         inp = rep.get('input') or rep.get('detail') or {}
         nets = []
         if 'netlist' in inp:
-            an = inp.get('analysis', 'lap')
-            an = {'dc': 'dc', 'lap': 'lap', 'ac': 'ac', 'time': 'time'}.get(an.split()[0], 'lap' if an.startswith(('ivp', 's ')) else an.split()[0])
-            pt = inp.get('point') or inp.get('s') or (inp.get('analysis', '').split() + ['0'])[1]
+            an = inp.get('analysis')
+            acl = [l.split() for l in inp['netlist'] if len(l.split()) > 6 and l.split()[3] == 'ac']
+            if an is None:      # older replay files: infer the analysis from the source kinds
+                an = 'ac ' + acl[0][6] if acl else 'lap 1' if any(' step ' in l for l in inp['netlist']) else 'dc'
+            an0 = an.split()[0]
+            pt = inp.get('point') or inp.get('s') or (an.split() + ['0', '0'])[1]
+            an = {'dc': 'dc', 'lap': 'lap', 'ac': 'ac', 'time': 'time'}.get(an0, 'lap' if an.startswith(('ivp', 's ')) else an0)
             nets = [net_from_lines(inp['netlist'], an, pt)]
+            replay_edit = inp.get('history')
         chk.coverage['replay'] = replay
     for net in nets:
         chk.count('analysis', net.analysis)
         chk.count('size', '%d nodes %d cpts' % (1 + max(max(c[2], c[3]) for c in net.cpts), len(net.cpts)))
         for c in net.cpts:
-            chk.count('component', c[1] + ('+ic' if c[5] is not None else '') + (':' + c[6] if c[6] else ''))
+            chk.count('component', c[1] + ('+ic' if c[5] is not None else '') + (':' + ('ac+phase' if c[6].startswith('ac:') else c[6]) if c[6] else ''))
         chk.sample({'netlist': net.lines(), 'analysis': net.analysis, 'point': fstr(net.point)})
+        # one circuit in three reaches its final netlist by an in-place edit of an already analysed object
+        edit = None
+        if replay_edit is not None:
+            edit = replay_edit
+        elif rep is None and len(net.cpts) >= 3 and net.cpts[-1][1] not in 'VI':
+            edit = [None, None, 'add', 'remove'][rng.randrange(4)]
+        chk.count('history', edit or 'built-in-one-go')
         try:
-            R = Real(net)
+            R = Real(net, edit)
             R.V(1)
         except NotExact as e:
             chk.count('degenerate', 'unsolvable:%s' % e)
@@ -666,11 +794,66 @@ def run(chk, replay=None):
         if net.analysis != 'time':
             check_mesh(net, R)
             check_mna(net, R)
+        if net.analysis == 'ac' and R.c is not R.cc and not R.edit:
+            check_nodal(net, R, 'direct')
+            check_mesh(net, R, 'direct')
 
     chk.coverage['time_circuits_s'] = round(time.time() - t_start, 1)
 
     # ------------------------------------------------------------------ state space of circuits
     t1 = time.time()
+
+    def ss_correspondence(net, ss, err):
+        """A, B, C, D of the Lean model of StateSpaceMaker (unit solutions of the substituted resistive circuit) against
+        Lcapy's, entry by entry, aligned by state / input / output names; the refusals must coincide"""
+        r = drv.ask1('ss.maker x || ' + ' || '.join(net.ss_model_lines()))
+        if r.startswith('error'):
+            chk.count('model', 'ss-maker:' + r[:40])
+            return
+        chk.coverage['correspondence']['compared'] += 1
+        refused = r.startswith('refused')
+        if err is not None or refused:
+            chk.count('ss-maker-refusal', 'lcapy:%s model:%s' % ('raises' if err is not None else 'builds', r[:40] if refused else 'builds'))
+            if (err is not None) != refused:
+                chk.coverage['correspondence']['disagreements'] += 1
+                disagreements.append({'what': 'state-space model', 'netlist': net.lines(), 'lcapy': 'raises %s' % err if err else 'builds', 'model': r[:200]})
+            return
+        secs = [x.split() for x in r.split(' || ')]
+        _, mst, minp, mA, mB, mout, mC, mD = secs
+        try:
+            lst = [str(v).replace('(t)', '') for v in ss.x.sympy]
+            lout = [str(v).replace('(t)', '') for v in ss.y.sympy]
+            linp = [q[0] for q in net.cpts if q[1] == 'V'] + [q[0] for q in net.cpts if q[1] == 'I']
+            LA, LB, LC, LD = ss.A.sympy, ss.B.sympy, ss.C.sympy, ss.D.sympy
+            real, mod = {}, {}
+            for i, a in enumerate(lst):
+                for j, b in enumerate(lst):
+                    real['A[%s,%s]' % (a, b)] = gq(sval(LA[i, j], {}))
+                for j, b in enumerate(linp):
+                    real['B[%s,%s]' % (a, b)] = gq(sval(LB[i, j], {}))
+            for i, a in enumerate(lout):
+                for j, b in enumerate(lst):
+                    real['C[%s,%s]' % (a, b)] = gq(sval(LC[i, j], {}))
+                for j, b in enumerate(linp):
+                    real['D[%s,%s]' % (a, b)] = gq(sval(LD[i, j], {}))
+        except NotExact as e:
+            chk.count('degenerate', 'ss-matrices:%s' % e)
+            return
+        for i, a in enumerate(mst):
+            for j, b in enumerate(mst):
+                mod['A[%s,%s]' % (a, b)] = mA[i * len(mst) + j]
+            for j, b in enumerate(minp):
+                mod['B[%s,%s]' % (a, b)] = mB[i * len(minp) + j]
+        for i, a in enumerate(mout):
+            for j, b in enumerate(mst):
+                mod['C[%s,%s]' % (a, b)] = mC[i * len(mst) + j]
+            for j, b in enumerate(minp):
+                mod['D[%s,%s]' % (a, b)] = mD[i * len(minp) + j]
+        chk.count('ss-maker-entries', 'compared', len(real))
+        if real != mod:
+            chk.coverage['correspondence']['disagreements'] += 1
+            diff = {k: (real.get(k), mod.get(k)) for k in sorted(set(real) | set(mod)) if real.get(k) != mod.get(k)}
+            disagreements.append({'what': 'state-space model', 'netlist': net.lines(), 'differs (lcapy, model)': dict(list(diff.items())[:8])})
 
     def check_ss_circuit(net):
         chk.count('formulation', 'state-space-circuit')
@@ -680,10 +863,12 @@ def run(chk, replay=None):
             n, m, p = ss.Nx, ss.Nu, ss.Ny
         except Exception as e:   # noqa
             chk.count('lcapy-error', 'ss:%s:%s' % (type(e).__name__, str(e)[:30]))
+            ss_correspondence(net, None, '%s: %s' % (type(e).__name__, str(e)[:60].replace('\n', ' ')))
             return
         if n == 0:
             chk.count('degenerate', 'ss-no-states')
             return
+        ss_correspondence(net, ss, None)
         s0 = srat(net.point)
         subs = {'s': s0}
         try:
@@ -746,7 +931,7 @@ def run(chk, replay=None):
         except Exception as e:   # noqa
             chk.count('lcapy-error', 'ss-P:%s' % type(e).__name__)
 
-    n_ss = 5 if quick else 50
+    n_ss = 14 if quick else 120
     tries = 0
     done = 0
     if rep is not None:
@@ -756,11 +941,16 @@ def run(chk, replay=None):
             check_ss_circuit(net_from_lines(inp['netlist'], 'lap', inp.get('s', '1')))
     while done < n_ss and tries < 4 * n_ss:
         tries += 1
-        net = gen_net(rng, 'lap', allow_I=(tries % 3 == 0), allow_ic=True, max_nodes=3, parallel_ok=False, n_src=1)
+        net = gen_net(rng, 'lap', allow_I=(tries % 3 == 0), allow_ic=True, max_nodes=3, parallel_ok=(tries % 4 == 1),
+                      n_src=(2 if tries % 5 == 4 else 1))
         nreact = sum(1 for c in net.cpts if c[1] in 'CL')
         if nreact == 0 or nreact > 3:
             continue
         done += 1
+        if done % 2 == 0:
+            # controlled sources, transformers, couplings: E and TF are built, G / F / H / K are refused
+            k = add_extra(rng, net, ['E', 'E', 'TF', 'G', 'F', 'H', 'K'])
+            chk.count('ss-extra', k or 'none')
         check_ss_circuit(net)
     chk.coverage['time_ss_circuits_s'] = round(time.time() - t1, 1)
 
@@ -948,7 +1138,7 @@ def run(chk, replay=None):
         chk.coverage['broken_obligations_explained_by_counterexamples'] = True
     # a model/code disagreement is reported on its own when no NEW counterexample of the same
     # formulation explains it (known findings never explain a disagreement)
-    form_of = {'nodal equation': 'nodal', 'mesh equation': 'mesh', 'mesh equation (ac)': 'mesh', 'MNA matrices': 'mna',
+    form_of = {'state-space model': 'ss-circuit', 'nodal equation': 'nodal', 'mesh equation': 'mesh', 'mesh equation (ac)': 'mesh', 'MNA matrices': 'mna',
                'realisation CCF': 'ss-tf', 'realisation OCF': 'ss-tf', 'realisation DCF': 'ss-tf'}
     seen = set()
     for d in disagreements:
